@@ -1,5 +1,6 @@
 import PharmpyModel.Core.Sexp
 import PharmpyModel.C17.Sched
+import PharmpyModel.C17.Scatter
 open Pharmpy Pharmpy.C17 Pharmpy.C17.DiGraph
 
 /-
@@ -10,6 +11,8 @@ open Pharmpy Pharmpy.C17 Pharmpy.C17.DiGraph
     (call   TASKS OPS b)               -> dict of the workflow call_workflow submits
     (callexec TASKS OPS b)             -> value of the workflow call_workflow submits
     (replay TASKS OPS b (name ...))    -> value at 'results' along the given firing order
+    (scatter ((key COMP) ...))         -> (((key COMP) ...) (COMP ...)) : the rewritten graph and the scattered data
+                                          COMP = (keep r) | (fut n) | (obj o) | (tuple COMP ...) | (list COMP ...)
 
   TASKS = ((id takesCtx (SARG ...) [name]) ...)       SARG = (s "x") | ctx | (call j "a" ...) | (list ATOM ...)
   OPS   = (new b) | (newtasks b (t ...)) | (add b t none|(p ...)) | (replace b old new)
@@ -178,8 +181,33 @@ def prep (ts : Sexp) (ops : List Sexp) : Option (Table × Builders) :=
   | some tb => (runOps tb ops).map (fun r => (r.1, r.2.1))
   | none => none
 
+partial def comp? : Sexp → Option Comp
+  | .list [.atom "keep", .atom r] => some (.keep r)
+  | .list [.atom "fut", n] => n.asNat?.map Comp.fut
+  | .list [.atom "obj", .atom o] => some (.obj o)
+  | .list (.atom "tuple" :: xs) => (xs.mapM comp?).map Comp.tuple
+  | .list (.atom "list" :: xs) => (xs.mapM comp?).map Comp.list
+  | _ => none
+
+partial def compS : Comp → Sexp
+  | .keep r => .list [.atom "keep", .atom r]
+  | .fut n => .list [.atom "fut", Sexp.ofNat n]
+  | .obj o => .list [.atom "obj", .atom o]
+  | .tuple xs => .list (.atom "tuple" :: xs.map compS)
+  | .list xs => .list (.atom "list" :: xs.map compS)
+
+def entry? : Sexp → Option (String × Comp)
+  | .list [.atom k, c] => (comp? c).map (fun c => (k, c))
+  | _ => none
+
 def handle (req : Sexp) : Sexp :=
   match req with
+  | .list [.atom "scatter", .list es] =>
+    match es.mapM entry? with
+    | some g =>
+      let r := scatterGraph g []
+      .list [.list (r.1.map (fun p => .list [.atom p.1, compS p.2])), .list (r.2.map (fun o => .list [.atom "obj", .atom o]))]
+    | none => bad
   | .list [.atom "build", ts, .list ops] =>
     match tasks? ts with
     | some tb => match runOps tb ops with
